@@ -182,7 +182,9 @@ func (pc *vhnPC) WriteTo(p []byte, addr net.Addr) (int, error) {
 			n.consec[dir] = 0
 		}
 	}
-	n.wg.Add(copies)
+	if copies > 0 { // never Add(0) inside a bubble: see the quic lossypair helper
+		n.wg.Add(copies)
+	}
 	n.mu.Unlock()
 	for i := 0; i < copies; i++ {
 		dl := delay
